@@ -173,6 +173,16 @@ def struct_programs(tier):
                          ["select", [f("b0", "id"), f("j1", col[k1][1]), f("j2", col[k2][1])]],
                          ["where", ["logic", "AND", ["cmp", "=", f("b0", "id"), f("j1", col[k1][0])], ["cmp", "=", f("b0", "id"), f("j2", col[k2][0])]]]]
                + [["orderby", [f("b0", "id")], "asc"], ["orderby", [f("j1", col[k1][1])], "asc"], ["orderby", [f("j2", col[k2][1])], "asc"]]}
+    # windows ordered by several keys (one orderby() call per key, mixed directions), aggregates with FILTER
+    for keys in ([[f("t", "b"), "desc"], [f("t", "id"), "asc"]], [[f("t", "a"), "asc"], [f("t", "b"), "desc"], [f("t", "id"), "desc"]],
+                 [[f("t", "id"), "desc"]]):
+        for fn, args in (("ROW_NUMBER", []), ("SUM", [f("t", "id")]), ("COUNT", [f("t", "id")])):
+            for part in ([], [f("t", "s")]):
+                yield {"calls": [["from", ["t", "t"]], ["select", [f("t", "id"), A(["win", fn, args, part, keys], "w")]]] + oid}
+    for crit in (["cmp", ">", f("t", "b"), raw(1)], ["logic", "OR", ["cmp", ">", f("t", "b"), raw(1)], ["isnull", f("t", "a")]]):
+        yield {"calls": [["from", ["t", "t"]], ["select", [A(["aggf", "SUM", f("t", "a"), crit], "sf"), ["agg", "COUNT", "*"]]]]}
+        yield {"calls": [["from", ["t", "t"]], ["select", [f("t", "s"), A(["aggf", "MAX", ["arith", "+", f("t", "a"), raw(100)], crit], "mf")]], ["groupby", [f("t", "s")]],
+                         ["orderby", [f("t", "s")], "asc"]]}
     # CASE with falsy THEN / ELSE values in projection, grouping and DML
     for els in (raw(0), raw(""), raw(False), raw(0.0), ["null"], raw(1), None):
         for then in (raw(0), raw("hi"), raw(False)):
